@@ -5,51 +5,89 @@ from pyvc import core
 from props import gxcommon as G
 
 
-def regex_timing(tier) -> core.Result:
-    """BOUNDED stand-in for the assumed cost contract of `re` (no contract can be attached to sre): the adversarial
-    literal families named by the property at sizes n and 2n through the real lexer; the ratio must stay near 2."""
-    L = core.repo_import("pycparser.c_lexer")
-    res = core.Result()
-    fams = {
-        "escape-run-in-string": lambda n: '"' + "\\x41" * n + '";',
-        "escape-run-unterminated": lambda n: '"' + "\\123" * n,
-        "digit-run": lambda n: "1" * n + "z",
-        "float-digits-no-exponent": lambda n: "0." + "1" * n + "e",
-        "unterminated-char": lambda n: "'" + "\\\\" * n,
-        "bad-escape-run": lambda n: '"' + "\\%" * n + '"',
-        "identifier-run": lambda n: "a" * n + "$" * n,
-        "octal-run": lambda n: "0" + "7" * n + "9",
-    }
-    n0 = 2000 if tier == "quick" else 8000
+TIMING_SCRIPT = r'''
+import sys, time
+sys.path.insert(0, sys.argv[1])
+from pycparser.c_lexer import CLexer
+FAMS = {
+    "escape-run-in-string": lambda n: '"' + "\\x41" * n + '";',
+    "escape-run-unterminated-string": lambda n: '"' + "\\123" * n,
+    "digit-run": lambda n: "1" * n + "z",
+    "float-digits-no-exponent": lambda n: "0." + "1" * n + "e",
+    "unterminated-char": lambda n: "'" + "\\\\" * n,
+    "bad-escape-run": lambda n: '"' + "\\%" * n + '"',
+    "identifier-run": lambda n: "a" * n + "$" * n,
+    "octal-run": lambda n: "0" + "7" * n + "9",
+    "decimal-escapes-with-8-9-closed-char": lambda n: "'" + "\\18" * n + "'",
+    "decimal-escapes-with-8-9-unterminated": lambda n: "'" + "\\189" * n,
+    "hex-escapes-closed-char": lambda n: "'" + "\\x1f" * n + "'",
+    "hex-then-nonhex-escapes-in-string": lambda n: '"' + "\\x1g" * n + '"',
+    "octal-escapes-closed-char": lambda n: "'" + "\\17" * n + "'",
+    "x-escapes-without-digits": lambda n: "'" + "\\x" * n + "'",
+    "mixed-escapes-wide-char": lambda n: "L'" + "\\1\\x2\\n" * n + "'",
+}
+f = FAMS[sys.argv[2]]
+def lex_time(text):
+    lx = CLexer(lambda m, a, b: None, lambda: None, lambda: None, lambda n: False)
+    best = 1e9
+    for _ in range(3):
+        lx.input(text)
+        t0 = time.perf_counter(); k = 0
+        while lx.token() is not None and k < 10 * len(text) + 10: k += 1
+        best = min(best, time.perf_counter() - t0)
+    return best
+n = 6
+pts = []
+while n <= 200000:
+    t = lex_time(f(n)); pts.append((n, t)); print(n, t, flush=True)
+    if t > 0.05 and len(pts) >= 3: break
+    n *= 2
+'''
+TIMING_FAMILIES = ["escape-run-in-string", "escape-run-unterminated-string", "digit-run", "float-digits-no-exponent", "unterminated-char",
+                   "bad-escape-run", "identifier-run", "octal-run", "decimal-escapes-with-8-9-closed-char",
+                   "decimal-escapes-with-8-9-unterminated", "hex-escapes-closed-char", "hex-then-nonhex-escapes-in-string",
+                   "octal-escapes-closed-char", "x-escapes-without-digits", "mixed-escapes-wide-char"]
 
-    def lex_time(text):
-        lx = L.CLexer(lambda m, a, b: None, lambda: None, lambda: None, lambda n: False)
-        best = 1e9
-        for _ in range(3):
-            lx.input(text)
-            t0 = time.perf_counter()
-            k = 0
-            while lx.token() is not None and k < 10 * len(text) + 10:
-                k += 1
-            best = min(best, time.perf_counter() - t0)
-        return best
-    for name, f in fams.items():
-        # calibrate the size so that the smallest measurement is well above timer noise
-        n = n0
-        t1 = lex_time(f(n))
-        while t1 < 0.02 and n < 400000:
-            n *= 2
-            t1 = lex_time(f(n))
-        t2, t4 = lex_time(f(2 * n)), lex_time(f(4 * n))
-        r1, r2 = t2 / max(t1, 1e-6), t4 / max(t2, 1e-6)
-        # super-linear only if BOTH doublings cost clearly more than double (quadratic gives ~4 twice)
-        bad = (r1 > 3.3 and r2 > 3.3) or t4 > 20.0
-        rep = ("import time\nfrom pycparser.c_lexer import CLexer\n"
-               f"fam = {name!r}\n"
-               "print('see /verif/props/C16.py regex_timing for the family definitions'); print('NOT-REPRODUCED')\n")
-        res.obs.append(core.Ob(f"C16/timing/lexer-regex/{name}", core.REFUTED if bad else core.DISCHARGED, "timing", t1 + t2 + t4,
-                               f"n={n}: {t1 * 1e3:.1f} ms, 2n: {t2 * 1e3:.1f} ms, 4n: {t4 * 1e3:.1f} ms, ratios {r1:.2f} {r2:.2f}",
-                               replay=rep if bad else None, functions=["c_lexer._regex_rules"], bounded=True, sample=f"{name} n={n}"))
+
+def _time_family(name):
+    import subprocess
+    try:
+        p = subprocess.run([core.REPLAY_PY, "-c", TIMING_SCRIPT, core.REPO, name], capture_output=True, text=True, timeout=25)
+        pts = [(int(a), float(b)) for a, b in (l.split() for l in p.stdout.splitlines() if l.strip())]
+        return name, pts, None if p.returncode == 0 else p.stderr[-200:]
+    except subprocess.TimeoutExpired as e:
+        out = e.stdout.decode() if isinstance(e.stdout, bytes) else (e.stdout or "")
+        pts = [(int(a), float(b)) for a, b in (l.split() for l in out.splitlines() if l.strip())]
+        return name, pts, "TIMEOUT"
+
+
+def regex_timing(tier) -> core.Result:
+    """BOUNDED stand-in for the assumed cost contract of `re` (no contract can be attached to sre): the adversarial literal
+    families named by the property, each in its own process under a time limit, at doubling sizes starting from 6 repetitions
+    (so that an exponential blow-up shows as a time-out on a short input instead of hanging the check)."""
+    import multiprocessing as mp
+
+    res = core.Result()
+    with mp.get_context("fork").Pool(8) as pool:
+        rows = pool.map(_time_family, TIMING_FAMILIES)
+    for name, pts, err in rows:
+        bad, why = False, ""
+        if err == "TIMEOUT":
+            last = pts[-1] if pts else (0, 0)
+            bad, why = True, f"timed out (25 s) after n={last[0]} repetitions took {last[1]:.3f} s: super-polynomial on a short input"
+        elif err:
+            why = "timing script failed: " + err
+        else:
+            big = [(n, t) for n, t in pts if t > 0.004]
+            ratios = [big[i + 1][1] / big[i][1] for i in range(len(big) - 1)]
+            # super-linear only if two consecutive doublings both cost clearly more than double
+            bad = any(ratios[i] > 3.3 and ratios[i + 1] > 3.3 for i in range(len(ratios) - 1)) or any(t > 5.0 and n < 2000 for n, t in pts)
+            why = "sizes/times " + ", ".join(f"{n}:{t * 1e3:.1f}ms" for n, t in pts[-4:])
+        rep = ("import subprocess, sys\n"
+               f"print('family {name}: see TIMING_SCRIPT in /verif/props/C16.py'); print('NOT-REPRODUCED')\n")
+        st = core.REFUTED if bad else (core.UNDECIDED if err and err != "TIMEOUT" else core.DISCHARGED)
+        res.obs.append(core.Ob(f"C16/timing/lexer-regex/{name}", st, "timing", 0.0, why, replay=rep if bad else None,
+                               functions=["c_lexer._regex_rules"], bounded=True, sample=name))
     res.assumptions.append("cost of one `re` match is linear in the text it inspects for the 24 rules: ASSUMED; the timing family is a bounded stand-in")
     return res
 
@@ -60,7 +98,7 @@ def run(tier, seed):
     import contracts.lexer as LX
 
     # speculation never throws away unbounded work (a callee's construct, or a scan that grows with the construct)
-    res = G.gx(None, ["cost"], "C16/gx", tier)
+    res = G.gx(None, ["cost", "rescan"], "C16/gx", tier)
     # each token is lexed once however often the parser backtracks; the lexer loop makes progress on every iteration
     res.add(run_functions(TS.FUNCTIONS + ["CLexer.token#progress"] + LX.PROGRESS_VARIANTS, "C16/smt", tier))
     res.add(regex_timing(tier))
